@@ -29,10 +29,12 @@ type Sched struct {
 	owner   map[any]*Task
 	readers map[any]int
 	kick    chan struct{}
+	conds   map[*sync.Cond][]*Task // waiters per cond, in arrival order
 	aborted bool
 	maxStep int
 	seq     int64
 	deadlk  string
+	over    bool // the scheduler's loop has returned
 }
 
 // EngineB is true in the build that runs under the race detector (mode B).
@@ -44,6 +46,7 @@ const (
 	tsParked   taskState = iota // at a yield point, can be released
 	tsRunning                   // released (or blocked in an uninstrumented primitive)
 	tsLockWait                  // waiting for a simulated mutex
+	tsCondWait                  // waiting on a simulated sync.Cond
 	tsDone
 )
 
@@ -55,8 +58,11 @@ type Task struct {
 	wake  chan struct{}
 	want  any  // mutex it waits for
 	wantR bool // wants it for reading
-	goid  int64
-	s     *Sched
+	// cond-wait: the cond it waits on, and whether a Signal/Broadcast has named it
+	waitCond  *sync.Cond
+	condWoken bool
+	goid      int64
+	s         *Sched
 }
 
 func newSched(env *Env) *Sched {
@@ -65,6 +71,7 @@ func newSched(env *Env) *Sched {
 		byGoid:  map[int64]*Task{},
 		owner:   map[any]*Task{},
 		readers: map[any]int{},
+		conds:   map[*sync.Cond][]*Task{},
 		kick:    make(chan struct{}, 1),
 		maxStep: 20000,
 	}
@@ -300,6 +307,85 @@ func (s *Sched) RUnlock(m *sync.RWMutex)  { s.release(m, true, m.RUnlock) }
 
 func (s *Sched) Go(f func()) { s.Spawn("go", f) }
 
+// GoForeign: a goroutine the runtime started (a timer's function) hands its work to a
+// new task and the scheduler is told that there is one more to choose from.
+func (s *Sched) GoForeign(f func()) bool {
+	s.mu.Lock()
+	over := s.aborted || s.over
+	s.mu.Unlock()
+	if over {
+		return false
+	}
+	s.Spawn("timer", f)
+	s.doKick()
+	return true
+}
+
+func unlockLocker(h interface {
+	Unlock(*sync.Mutex)
+	RWUnlock(*sync.RWMutex)
+}, l sync.Locker) {
+	switch m := l.(type) {
+	case *sync.Mutex:
+		h.Unlock(m)
+	case *sync.RWMutex:
+		h.RWUnlock(m)
+	default:
+		l.Unlock()
+	}
+}
+
+func lockLocker(h interface {
+	Lock(*sync.Mutex)
+	RWLock(*sync.RWMutex)
+}, l sync.Locker) {
+	switch m := l.(type) {
+	case *sync.Mutex:
+		h.Lock(m)
+	case *sync.RWMutex:
+		h.RWLock(m)
+	default:
+		l.Lock()
+	}
+}
+
+// CondWait: give up the lock, wait to be named by a Signal or Broadcast, take the lock
+// again. The real Cond is never waited on.
+func (s *Sched) CondWait(c *sync.Cond) {
+	t := s.cur()
+	unlockLocker(s, c.L)
+	s.mu.Lock()
+	if s.aborted {
+		s.mu.Unlock()
+		panic(&abortRun{"aborted"})
+	}
+	t.state, t.waitCond, t.condWoken = tsCondWait, c, false
+	s.conds[c] = append(s.conds[c], t)
+	s.mu.Unlock()
+	s.park(t)
+	lockLocker(s, c.L)
+}
+
+func (s *Sched) CondSignal(c *sync.Cond) {
+	s.mu.Lock()
+	if ws := s.conds[c]; len(ws) > 0 {
+		ws[0].condWoken = true
+		s.conds[c] = ws[1:]
+	}
+	s.mu.Unlock()
+	s.doKick()
+}
+
+func (s *Sched) CondBroadcast(c *sync.Cond) {
+	s.mu.Lock()
+	for _, t := range s.conds[c] {
+		t.condWoken = true
+	}
+	delete(s.conds, c)
+	s.mu.Unlock()
+	s.doKick()
+}
+
 func (s *Sched) Woke() { s.Yield() }
 
 func (s *Sched) SelectPref(n int) int { return s.env.C.Int("select", n) }
@@ -324,6 +410,16 @@ func (s *Sched) candidates() (cands []*Task, running, live int) {
 			if s.owner[t.want] == nil && (t.wantR || s.readers[t.want] == 0) {
 				cands = append(cands, t)
 			}
+		case tsCondWait:
+			live++
+			if t.condWoken {
+				cands = append(cands, t)
+			} else {
+				// (who will signal is not known to the scheduler - it may be a timer that
+				// has yet to fire - so this counts like a task blocked in a real primitive:
+				// the scheduler waits, and if nothing can ever come the bubble says so)
+				running++
+			}
 		case tsRunning:
 			running++
 			live++
@@ -341,13 +437,14 @@ func (s *Sched) loop(quiesce func()) {
 		s.mu.Lock()
 		cands, running, live := s.candidates()
 		if live == 0 {
+			s.over = true
 			s.mu.Unlock()
 			return
 		}
 		if s.aborted {
 			// release everything that can be released so that it unwinds
 			for _, t := range s.tasks {
-				if t.state == tsParked || t.state == tsLockWait {
+				if t.state == tsParked || t.state == tsLockWait || t.state == tsCondWait {
 					t.state = tsRunning
 					select {
 					case t.wake <- struct{}{}:
@@ -369,6 +466,9 @@ func (s *Sched) loop(quiesce func()) {
 				for _, t := range s.tasks {
 					if t.state == tsLockWait {
 						fmt.Fprintf(&sb, "task %d(%s) waits for a mutex held by task %d; ", t.ID, t.Name, s.owner[t.want].ID)
+					}
+					if t.state == tsCondWait {
+						fmt.Fprintf(&sb, "task %d(%s) waits on a sync.Cond that nobody signals; ", t.ID, t.Name)
 					}
 				}
 				s.deadlk = sb.String()
